@@ -642,16 +642,16 @@ def rule_r6(F, rep):
 
 
 def run(F, rep, tier):
-    rule_r1(F, rep)
-    rule_r1b(F, rep)
-    rule_r5(F, rep)
+    rep.attempt(rule_r1, F, rep)
+    rep.attempt(rule_r1b, F, rep)
+    rep.attempt(rule_r5, F, rep)
     from . import c05_flow
-    c05_flow.run(F, rep)
-    rule_r6(F, rep)
-    rule_r7(F, rep)
-    rule_r8(F, rep)
+    rep.attempt(c05_flow.run, F, rep)
+    rep.attempt(rule_r6, F, rep)
+    rep.attempt(rule_r7, F, rep)
+    rep.attempt(rule_r8, F, rep)
     from . import c06
-    c06.rule_r3(F, rep)      # numbers reach the document only through Display of the f64 itself
+    rep.attempt(c06.rule_r3, F, rep)      # numbers reach the document only through Display of the f64 itself
     rep.assume("round-trip equality of emitted documents is value-level and not decided; number text is "
                "delegated to <f64 as Display> (std, trusted)")
     return EXPLANATION
